@@ -61,14 +61,32 @@ def keepOf (h : HS) (nb : Nat) : Addr → Bool := fun a =>
 def histStep (h : HS) (st : List String) : Option (HS × String) :=
   let h := { h with nstep := h.nstep + 1 }
   match st with
-  | ["A", b, k] => do
-    let b ← b.toNat?; let k ← k.toNat?
-    let (s', out) := astepO env h.s (.applyCb (h.bmap b) target ⟨0, cbAddr k, 19⟩ k cbCode)
-    pure ({ h with s := s' }, outcomeStr out)
-  | ["R", b, r] => do
-    let b ← b.toNat?
-    let (s', out) := astepO env h.s (.ret (h.bmap b) target ⟨0, stubAddr h.nstep, 19⟩ stubCode (toksOf r))
-    pure ({ h with s := s' }, outcomeStr out)
+  | [op, b, k] =>
+    if op = "A" ∨ op = "Ah" then do
+      let b ← b.toNat?; let k ← k.toNat?
+      let (s', out) := astepO env h.s (.applyCb (h.bmap b) target (op == "Ah") ⟨0, cbAddr k, 19⟩ k cbCode)
+      pure ({ h with s := s' }, outcomeStr out)
+    else if op = "R" ∨ op = "Rh" then do
+      let b ← b.toNat?
+      let (s', out) := astepO env h.s (.ret (h.bmap b) target (op == "Rh") ⟨0, stubAddr h.nstep, 19⟩ stubCode (toksOf k))
+      pure ({ h with s := s' }, outcomeStr out)
+    else none
+  | [op, b, c, r] =>
+    if op = "W" ∨ op = "Wh" then do
+      let b ← b.toNat?
+      let (s', out) := astepO env h.s (.whenRet (h.bmap b) target (op == "Wh") ⟨0, stubAddr h.nstep, 19⟩ stubCode (toksOf c) (toksOf r))
+      pure ({ h with s := s' }, outcomeStr out)
+    else if op = "C" ∨ op = "Cr" then
+      let o := match see env h.s target (toksOf c) with
+        | .orig => "orig"
+        | .cb k => s!"cb{k} a={showToks (toksOf c)} r={showToks (toksOf r)} id=ok"
+        | .stubRet [res] => s!"stub r={showToks res}"
+        | .stubRet rs => s!"stub seq={rs.length}"
+        | .stubOrig => "stub-orig"
+        | .stubPanic => "panic:there-is-no-suitable"
+        | .crash => "crash"
+      pure (h, o)
+    else none
   | ["X", b] => do
     let b ← b.toNat?
     pure ({ h with s := astep env h.s (.reset (h.bmap b)) }, "ok")
@@ -76,16 +94,6 @@ def histStep (h : HS) (st : List String) : Option (HS × String) :=
     let b ← b.toNat?
     pure ({ h with bmap := fun x => if x = b then h.nextB else h.bmap x, nextB := h.nextB + 1 }, "ok")
   | ["G"] => pure ({ h with s := astep env h.s (.gc (keepOf h 4)) }, "ok")
-  | ["C", _form, a, r] =>
-    let o := match see env h.s target with
-      | .orig => "orig"
-      | .cb k => s!"cb{k} a={showToks (toksOf a)} r={showToks (toksOf r)} id=ok"
-      | .stubRet [res] => s!"stub r={showToks res}"
-      | .stubRet rs => s!"stub seq={rs.length}"
-      | .stubOrig => "stub-orig"
-      | .stubPanic => "panic"
-      | .crash => "crash"
-    pure (h, o)
   | _ => none
 
 def runHist (steps : List (List String)) : Option String := do
@@ -157,6 +165,12 @@ def handle (toks : List String) : Option String :=
     | some o => some o
     | none => some "bad-op"
   | "c01.getptr" :: _ => some "data-word=funcval first-word=code"
+  | ["c01.fm", _form, a, b, r] =>
+    -- Apply through a method value, call, Reset, call: the model has no signature notion — it says which code runs
+    let s1 := astep env (ainit env) (.applyCb 0 target false ⟨0, cbAddr 0, 19⟩ 0 cbCode)
+    let o1 := match see env s1 target [a, b] with | .cb _ => s!"cb a={a},{b} r={r}" | .orig => "orig" | _ => "other"
+    let o2 := match see env (astep env s1 (.reset 0)) target [a, b] with | .orig => "orig" | _ => "other"
+    some s!"{o1} | {o2}"
   | _ => none
 
 end Drv.C01
